@@ -430,3 +430,39 @@ def beta_tracks_residual(ctx, rule='residual-norm-tracks-residual'):
                   if not problems else '; '.join(sorted(set(problems))[:3]))
     if n < 6:
         raise AnalysisBroken('only %d factorization members with residual writes analysed' % n)
+
+
+def resumed_at_own_dimension(ctx, base_tq, rule='factorization-resumed-at-its-own-dimension'):
+    """factorize_from(k, m) extends a k-step factorization: the residual and its norm it starts from must be those of step k.
+    Typestate over the public entry points of the solver base: init() leaves a 1-step factorization, compute() leaves an
+    ncv-step one, and the property quantifies over every sequence of init() and compute().  A call factorize_from(k, ..) is
+    therefore right only if k is tied to the current dimension on every history: (a) it follows compress_V in the same member
+    with the compressed size (restart; the accounting is rule `restart-shift-accounting`), or (b) k is read from the
+    factorization itself (subspace_dim()), possibly bounded below by 1.  A literal start index is right after init() only."""
+    n = 0
+    for fname in ('compute', 'restart'):
+        for fn in ctx.F.insts(base_tq + '::' + fname):
+            calls = [x for x in fn.walk() if x['k'] == 'CXXMemberCallExpr' and x.get('callee') == 'factorize_from']
+            for c in calls:
+                n += 1
+                a = sym(fn, fn.call_args(c)[0], inline=False)
+                inst = '%s::%s' % (base_tq.replace('Spectra::', ''), fname)
+                if paths.dominated_by(fn, fn.pos_of(c), lambda m: m['k'] == 'CXXMemberCallExpr' and m.get('callee') == 'compress_V'):
+                    ctx.ok(rule, inst, fn.qname, 'factorize_from(%s, ..) follows compress_V in the same member' % show(a))
+                    continue
+                txt = show(a)
+                if 'subspace_dim' in txt:
+                    ctx.ok(rule, inst, fn.qname, 'start index %s is read from the factorization' % txt)
+                    continue
+                if a[0] == 'lit':
+                    inits = paths.dominated_by(fn, fn.pos_of(c), lambda m: m['k'] == 'CXXMemberCallExpr' and m.get('callee') == 'init')
+                    ctx.check(bool(inits), rule, inst, fn.qname,
+                              'literal start index after an init() in the same member' if inits else
+                              '`%s` assumes a %s-step factorization, which holds right after init() only: a %s() that follows another %s() on the same object '
+                              '(every sequence of init() and compute() is in the quantifier of the property) restarts column %s from the residual of step ncv, '
+                              'the Arnoldi / Lanczos relation is wrong in column %d and the pairs reported as converged are not eigenpairs' %
+                              (fn.s(c['id'])[:60], txt, fname, fname, txt, int(txt) - 1))
+                    continue
+                raise AnalysisBroken('%s: start index %s of factorize_from not classified' % (fn.qname, txt))
+    if n < 4:
+        raise AnalysisBroken('%s: only %d factorize_from call sites analysed' % (base_tq, n))
